@@ -151,6 +151,9 @@ def _judge_text(ctx, text, origin):
 
 def run_shard(spec, ctx):
     _install(ctx)
+    if spec['kind'] == 'suite':
+        from . import _text
+        return _text.run_repo_suite(ID, ctx)
     if spec['kind'] == 'shipped':
         files = sorted(glob.glob(harness.REPO + '/parso/python/grammar*.txt'))
         for f in files:
@@ -183,7 +186,7 @@ def replay(w, ctx):
 
 def shards(tier, seed):
     n = 4000 if tier == 'quick' else 200000
-    return [{'kind': 'shipped'}] + [{'kind': 'random', 'n': n // 15, 'budget_s': 60 if tier == 'quick' else 900} for _ in range(15)]
+    return ([{'kind': 'suite'}] if tier == 'thorough' else []) + [{'kind': 'shipped'}] + [{'kind': 'random', 'n': n // 15, 'budget_s': 60 if tier == 'quick' else 900} for _ in range(15)]
 
 
 def floors(tier):
@@ -193,3 +196,7 @@ def floors(tier):
 
 def extra_coverage(m, tier):
     return {'exhaustive': True, 'exhaustive_scope': 'the shipped grammar files (all rules, states and plans); the random grammars are sampled'}
+
+
+def install_for_suite(ctx):
+    _install(ctx)
